@@ -34,6 +34,12 @@ def sym_sign(P, ex):
             chain_payload = b.payload('Net')
             ctx = ExecutionContext(key=key)
             opg = G.OperationGroup(context=ctx, contents=[{'kind': k} for k in kinds], chain_id=chain_text if P.get('chain', True) else None, branch=opnode.BRANCH)
+            if P.get('derived'):
+                # the group is derived from one that was already sent (it carries that group's hash) and is extended before signing
+                opg = G.OperationGroup(context=ctx, contents=[{'kind': kinds[0]}], chain_id=chain_text, branch=opnode.BRANCH, signature=b.other('sig', ex.bytes('old_sig', 64)),
+                                       opg_hash=b.other('o', ex.bytes('old_hash', 32)))
+                for k in kinds[1:]:
+                    opg = opg.operation({'kind': k})
             signed = opg.sign()
             from pytezos.rpc.kind import validation_passes
 
@@ -171,6 +177,13 @@ def _conc_sign(P, w):
         key, chain, opg = _real_group(P, w)
         from pytezos.rpc.kind import validation_passes
 
+        if P.get('derived'):
+            first = opg._spawn(contents=opg.contents[:1]).sign()
+            sent = first._spawn(opg_hash=first.hash())
+            opg = sent
+            for c_ in _real_group(P, w)[2].contents[1:]:
+                opg = opg.operation(c_)
+
         if P.get('refuse'):
             try:
                 opg.sign()
@@ -214,6 +227,10 @@ def obligations(tier):
             P = {'key': keyk, 'kinds': pair, 'n': 2}
             obs.append(Ob(f'sign/{keyk}/{"+".join(pair)}/forged=2', 'bvx', sym_sign, conc_sign, P, timeout=120, opts={'W': C07.W}, targets=TARGETS, stubs=STUBS,
                           bounds=f'group {pair} from a {keyk} account'))
+    for keyk in ('tz1', 'tz4'):
+        P = {'key': keyk, 'kinds': ['reveal', 'transaction'], 'n': 2, 'derived': True}
+        obs.append(Ob(f'sign/{keyk}/derived-from-a-sent-group', 'bvx', sym_sign, conc_sign, P, timeout=120, opts={'W': C07.W}, targets=TARGETS, stubs=STUBS,
+                      bounds='a group that already carries a signature and a hash (symbolic) is extended by one content, signed again and hashed'))
     for pair in (['transaction', 'ballot'], ['endorsement', 'transaction'], ['failing_noop', 'transaction'], ['activate_account', 'reveal']):
         obs.append(Ob(f'refuse/mixed/{"+".join(pair)}', 'bvx', sym_mixed, conc_sign, {'kinds': pair, 'refuse': True}, timeout=60, opts={'W': 64}, targets=TARGETS, stubs=STUBS,
                       bounds='contents of different validation passes'))
